@@ -12,7 +12,7 @@ for pid in props:
         checks.append({
           "property_id":pid,
           "quick_cmd":"./check %s --tier quick"%pid,
-          "thorough_cmd":"./check %s --tier thorough"%pid,
+          "thorough_cmd":"./check %s --tier thorough --cross z3-new"%pid,
           "evidence_file":"/verif/evidence/%s.json"%pid,
           "replay_cmd_template":"./check %s --replay {path}"%pid,
           "engine":"symgo",
